@@ -18,6 +18,7 @@ use vh_common::*;
 
 mod abs;
 use abs::*;
+mod text;
 
 static LAST_PANIC: Mutex<Option<(String, u32, String)>> = Mutex::new(None);
 
@@ -394,6 +395,67 @@ fn main() {
         hazard.insert(name.to_string(), obs);
     }
 
+    // ---- stream 3: TEXT payloads (SEARCH; no model of the XML layer): every text slot x every hostile text ----
+    let tpool = text::pool();
+    let mut text_outcomes: std::collections::BTreeMap<String, u64> = Default::default();
+    let mut text_by_slot: std::collections::BTreeMap<String, u64> = Default::default();
+    let mut text_cases = 0u64;
+    {
+        let base_obs = run.run(text::package(&[]));
+        text_cases += 1;
+        or.checked += 1;
+        if base_obs != Obs::Ok {
+            or.fail("text-stream base package does not import", json!({"stream": "text"}), format!("{:?}", base_obs));
+        }
+        let mut one = |fills: &[(usize, &text::Payload)], label: &str, run: &mut Runner, or: &mut Oracle,
+                       pcs: &mut std::collections::BTreeMap<String, u64>| {
+            let o = run.run(text::package(fills));
+            text_cases += 1;
+            or.checked += 1;
+            *text_outcomes.entry(o.word().to_string()).or_insert(0) += 1;
+            for (si, _) in fills {
+                *text_by_slot.entry(text::SLOTS[*si].to_string()).or_insert(0) += 1;
+            }
+            let desc: Vec<serde_json::Value> = fills.iter().map(|(si, p)| json!({"slot": text::SLOTS[*si], "text": p.show()})).collect();
+            match &o {
+                Obs::Panic { class, detail } => {
+                    *pcs.entry(class.clone()).or_insert(0) += 1;
+                    or.fail(class, json!({"stream": "text", "kind": label, "fills": desc}), detail.clone());
+                }
+                Obs::Hang => or.fail("hang: text payload package runs longer than 5 s", json!({"stream": "text", "kind": label, "fills": desc}), "timeout".into()),
+                _ => {}
+            }
+        };
+        // TIE for the decoder cursor (Xlsx/EscapeSafe.v): the text as a shared string, a t="str" value and
+        // a cached formula string; observation = panic / nopanic, the model gets the UTF-8 bytes
+        for p in &tpool {
+            if let text::Payload::Plain(s) = p {
+                if s.len() <= 1500 {
+                    let mut panicked = false;
+                    for si in [0usize, 4, 5] {
+                        if let Obs::Panic { .. } = run.run(text::package(&[(si, p)])) {
+                            panicked = true;
+                        }
+                    }
+                    let bytes = if s.is_empty() { "-".to_string() } else { s.bytes().map(|b| b.to_string()).collect::<Vec<_>>().join(".") };
+                    cs.case(&format!("dec {bytes}"), if panicked { "panic" } else { "nopanic" });
+                }
+            }
+        }
+        // exhaustive: slot x pool
+        for si in 0..text::SLOTS.len() {
+            for p in &tpool {
+                one(&[(si, p)], "slot x pool", &mut run, &mut or, &mut panic_classes);
+            }
+        }
+        // random combinations of several slots
+        let n_combo = if thorough { 30_000 } else { 600 };
+        for _ in 0..n_combo {
+            let fills = text::random_fills(&mut rng, &tpool);
+            one(&fills, "random combination", &mut run, &mut or, &mut panic_classes);
+        }
+    }
+
     // ---- stream 2: byte-level SEARCH (no model; only "no panic, no hang") ------------------
     let mut seeds: Vec<(String, Vec<u8>)> = vec![];
     seeds.push(("export".into(), exported_package()));
@@ -511,6 +573,11 @@ fn main() {
         "structured_outcomes": outcome_counts,
         "byte_level_distribution": byte_counts,
         "byte_level_outcomes": byte_outcomes,
+        "text_payload_cases": text_cases,
+        "text_payload_outcomes": text_outcomes,
+        "text_payload_by_slot": text_by_slot,
+        "text_pool_size": tpool.len(),
+        "text_slots": text::SLOTS,
         "byte_level_seeds": seeds.iter().map(|s| s.0.clone()).collect::<Vec<_>>(),
         "panic_classes": panic_classes,
         "hazard_witnesses": hazard,
